@@ -893,6 +893,11 @@ func (m *repoManager) newUUID(assign *dvid.UUID) (dvid.UUID, dvid.VersionID, err
 		uuid = *assign
 	}
 	m.idMutex.Lock()
+	if _, found := m.uuidToVersion[uuid]; found {
+		// An assigned UUID must not take over the version of an existing node.
+		m.idMutex.Unlock()
+		return uuid, 0, ErrExistingUUID
+	}
 	curid := m.versionID
 	m.versionToUUID[curid] = uuid
 	m.uuidToVersion[uuid] = curid
